@@ -6,7 +6,7 @@ import os
 from dataclasses import dataclass
 from typing import Dict, FrozenSet, List, Optional, Set, Tuple
 
-from .facts import Fact, FactFlow, const_int, names_in
+from .facts import always_exits, Fact, FactFlow, const_int, names_in
 from .resolve import UNK, Resolver, prim
 from .session import BUILTIN_EXC_PARENTS
 from .srcmodel import AnalysisError, FuncInfo, Model, norm, walk_no_nested
@@ -460,7 +460,31 @@ class MayRaise:
         out: Set[Esc] = set()
         for s in stmts:
             out |= self.stmt(s, ctx)
+            # inside a handler: `if isinstance(e, X): <leaves>` narrows what `e` (and a bare raise) can be afterwards
+            if isinstance(s, ast.If) and ctx.get("handler_var") and not s.orelse and always_exits(s.body):
+                nar = self.narrow_handler(ctx, s.test, False)
+                if nar is not None:
+                    ctx = nar
         return out
+
+    def narrow_handler(self, ctx, test: ast.expr, truth: bool):
+        """the handler context under `test` being `truth`, when test is [not] isinstance(<handler variable>, <classes>)"""
+        hv = ctx.get("handler_var")
+        if isinstance(test, ast.UnaryOp) and isinstance(test.op, ast.Not):
+            return self.narrow_handler(ctx, test.operand, not truth)
+        if not (hv and isinstance(test, ast.Call) and isinstance(test.func, ast.Name) and test.func.id == "isinstance" and len(test.args) == 2
+                and isinstance(test.args[0], ast.Name) and test.args[0].id == hv):
+            return None
+        fi: FuncInfo = ctx["fi"]
+        names = test.args[1].elts if isinstance(test.args[1], ast.Tuple) else [test.args[1]]
+        qs = [self.m.resolve_name(fi.module, norm(n)) or norm(n) for n in names]
+
+        def inst(e: Esc) -> bool:
+            return any(q in ("Exception", "BaseException") or exc_is_sub(self.m, e.exc, q) for q in qs)
+        kept = frozenset(e for e in ctx["caught"] if inst(e) == truth)
+        hvs = dict(ctx.get("handler_vars") or {})
+        hvs[hv] = kept
+        return dict(ctx, caught=kept, handler_vars=hvs)
 
     def handler_matches(self, e: Esc, h: ast.ExceptHandler, module: str) -> bool:
         if h.type is None:
@@ -532,6 +556,10 @@ class MayRaise:
             return out | self.block(s.body, ctx)
         if isinstance(s, (ast.If, ast.While)):
             out |= self.expr_escapes(s.test, ctx)
+            if isinstance(s, ast.If) and ctx.get("handler_var"):
+                ct, cf = self.narrow_handler(ctx, s.test, True), self.narrow_handler(ctx, s.test, False)
+                if ct is not None and cf is not None:
+                    return out | self.block(s.body, ct) | self.block(s.orelse, cf)
             return out | self.block(s.body, ctx) | self.block(s.orelse, ctx)
         if isinstance(s, ast.For):
             out |= self.expr_escapes(s.iter, ctx)
@@ -631,7 +659,52 @@ class MayRaise:
         txt = norm(e.value)
         facts = self.facts(e, ctx) or self.facts(e.value, ctx)
         ok = ("NN", txt) in facts or ("T", txt) in facts
+        if not ok and self.group_never_none(e.value, fi):
+            return self.site(ctx, e, "attr-on-optional", "AttributeError", True, f"`{txt}`: the group takes part in every match of the pattern")
         return self.site(ctx, e, "attr-on-optional", "AttributeError", ok, f"`{txt}` may be None here (no dominating test)")
+
+    def group_never_none(self, e: ast.expr, fi: FuncInfo) -> bool:
+        """e is M.group(k) / M[k] and every pattern M can be a match of has group k on its unconditional spine"""
+        from .rx.sites import always_participating, find_sites
+        if isinstance(e, ast.Call) and isinstance(e.func, ast.Attribute) and e.func.attr == "group" and len(e.args) == 1 and isinstance(e.args[0], ast.Constant):
+            recv, key = e.func.value, e.args[0].value
+        elif isinstance(e, ast.Subscript) and isinstance(e.slice, ast.Constant):
+            recv, key = e.value, e.slice.value
+        else:
+            return False
+        if not isinstance(recv, ast.Name) or not isinstance(key, (int, str)) or isinstance(key, bool):
+            return False
+        sites = self.__dict__.get("_rx_sites")
+        if sites is None:
+            try:
+                sites = find_sites(self.m)
+            except Exception:
+                sites = []
+            self._rx_sites = sites
+        pats = []
+        if recv.id in fi.params() and not self._rebound(recv.id, fi):
+            # the parameter of a substitution callback
+            top = fi.qualname
+            for s_ in sites:
+                if s_.callback is not None and isinstance(s_.callback, ast.Name):
+                    q = self.m.resolve_name(s_.module, s_.callback.id)
+                    host = self.m.functions.get(s_.func)
+                    nested = f"{s_.func}.<locals>.{s_.callback.id}"
+                    if q == top or nested == top:
+                        pats.append((s_.pattern, s_.flags))
+            if not pats:
+                return False
+        else:
+            binds = [a.value for a in walk_no_nested(fi.node) if isinstance(a, (ast.Assign, ast.AnnAssign)) and a.value is not None and
+                     any(isinstance(t_, ast.Name) and t_.id == recv.id for t_ in (a.targets if isinstance(a, ast.Assign) else [a.target]))]
+            if not binds:
+                return False
+            for b in binds:
+                hit = [s_ for s_ in sites if s_.node is b]
+                if len(hit) != 1 or hit[0].api not in ("match", "fullmatch", "search"):
+                    return False
+                pats.append((hit[0].pattern, hit[0].flags))
+        return all(always_participating(p_, f_, key) for p_, f_ in pats)
 
     # -- subscripts
     def subscript_check(self, e: ast.Subscript, ctx, store: bool = False) -> Optional[Esc]:
@@ -713,7 +786,7 @@ class MayRaise:
             if nonneg_it and ("LEN>=", x, f"{it} + 1") in facts:
                 return True, "len(x) >= i + 1 was checked"
             # i < N (range bound) and N <= len(x) (an earlier length check)
-            if nonneg_it and any(f[0] == "LT" and f[1] == it and ("LEN>=", x, f[2]) in facts for f in facts):
+            if nonneg_it and any(f[0] == "LT" and f[1] == it and (("LEN>=", x, f[2]) in facts or ("ISLEN", f[2], x) in facts) for f in facts):
                 return True, "0 <= i < N <= len(x)"
             # same-length alias: IDX(i, y) with SAMELEN(x, y)
             for f in facts:
